@@ -115,10 +115,11 @@ def main(argv=None):
         w = subprocess.run([sys.executable, "-m", "pbt.worker", "--warm", pid], cwd=str(ROOT),
                            stdout=subprocess.PIPE, stderr=subprocess.STDOUT, text=True)
         if w.returncode != 0:
-            print(w.stdout[-4000:])
-            print(f"HARNESS-ERROR property={pid} warm-up failed")
-            return 2
-        marker.write_text("ok")
+            # not fatal: if the library itself is broken, the search below reports it case by case
+            print(w.stdout[-1500:])
+            print(f"note: warm-up for {pid} failed; continuing without a warm numba cache")
+        else:
+            marker.write_text("ok")
     t0 = time.time()
 
     # ---------------- replay mode
